@@ -145,7 +145,7 @@ Proof.
     destruct o; cbn [overflow].
     - unfold sat. destruct (cmax f <? c) eqn:E1; [f_equal; lia|].
       destruct (c <? cmin f) eqn:E2; [f_equal; lia|]. cbn [elem_to_int num_int]. f_equal. lia.
-    - replace (64 <=? nw f) with true by lia. cbn [elem_to_int num_int bind]. f_equal.
+    - rewrite orb_true_r. cbn [elem_to_int num_int bind]. f_equal.
       apply wrap_model_res. lia. }
   rewrite Ho. cbn [bind elem_gt elem_lt]. eexists. reflexivity.
 Qed.
@@ -169,7 +169,7 @@ Theorem set_val_wide_ints f r o raw zs : 64 <= nw f -> (raw = true \/ 0 <= nf f)
     w_unf w = existsb (fun c => c <? cmin f) cs.
 Proof.
   intros Hn Hraw. cbv zeta. unfold set_val_real.
-  assert (Hobj: obj_path f (AObj (map NI zs)) = true) by (unfold obj_path; replace (64 <=? nw f) with true by lia; apply orb_true_r).
+  assert (Hobj: obj_path f raw (AObj (map NI zs)) = true) by (unfold obj_path; replace (64 <=? nw f) with true by lia; rewrite orb_true_r; reflexivity).
   rewrite Hobj. cbn [arr_nums bind].
   set (g := fun z : Z => if raw then z else z * 2^(nf f)).
   destruct (mapM_exists (elem_pipe f r o raw true)
